@@ -3,6 +3,7 @@ package scen
 import (
 	"bytes"
 	"crypto/rsa"
+	"crypto/sha1"
 	"fmt"
 	"io"
 	"math/big"
@@ -62,6 +63,9 @@ type scriptRun struct {
 	SrvSKXOverList                   bool   // GM: sign the ServerKeyExchange over the second entry of the substituted certificate list
 	SrvSKXSigAlg                     uint16 // TLS ECDHE: SignatureAndHashAlgorithm named in the ServerKeyExchange (signature bytes stay RSA/SHA-256)
 	EUTNoVerify                      bool   // endpoint under test (client) runs with InsecureSkipVerify
+	EUTDefaultSuites                 bool   // endpoint under test (GMSSL client) keeps the default suite list
+	GMECDHECurve                     uint16 // scripted GM server: curve id named in the ECDHE-SM2 parameters
+	GMECDHEBadPoint                  int
 	EUTGetConfig                     bool   // endpoint under test (server) answers through GetConfigForClient
 	EUTMaxVers, EUTMinVers           uint16 // version bounds of the endpoint under test
 	NPN                              bool   // scripted client and server under test negotiate NPN: one more client unit (NextProtocol)
@@ -569,7 +573,19 @@ func runScriptedPeer(c *simkit.Choice, r *simkit.Rec) {
 			if ecdhe && c.Bool(1, 2, simkit.LFault) {
 				sub = 5
 			}
+			if !sr.TLS && c.Bool(1, 6, simkit.LFault) {
+				sub = 6
+			}
 			switch {
+			case sub == 6:
+				// the server picks an ECDHE-SM2 suite (the GMSSL client offers them by default)
+				// and sends ECDHE parameters it has signed with its SM2 key: a genuine SM2
+				// point under a curve name of its choosing, or a malformed point
+				sr.SrvChoose = []uint16{0xe011, 0xe051}[c.Choose(2, simkit.LFault)]
+				sr.EUTDefaultSuites = true
+				sr.GMECDHECurve = []uint16{0x9999, 23, 24, 29, 0, 0xffff, 249}[c.Choose(7, simkit.LFault)]
+				sr.GMECDHEBadPoint = c.Choose(4, simkit.LFault) // 0: genuine point
+				sr.Why = fmt.Sprintf("ECDHE-SM2 suite %04x selected, signed parameters naming curve %d (point kind %d)", sr.SrvChoose, sr.GMECDHECurve, sr.GMECDHEBadPoint)
 			case sub == 5:
 				// ECDHE ServerKeyExchange with bad parameters (signed consistently, so only
 				// the parameter checks can refuse them) or a bad signature
@@ -845,6 +861,9 @@ func runScriptedPeer(c *simkit.Choice, r *simkit.Rec) {
 			conn = gmtls.Client(eutRaw, cfg)
 		} else {
 			cfg := &gmtls.Config{GMSupport: gmtls.NewGMSupport(), Rand: entE, Time: simTime(s, 0), RootCAs: pki.Pool("caA"), ServerName: "server.sim", CipherSuites: []uint16{sr.Suite}, InsecureSkipVerify: sr.EUTNoVerify}
+			if sr.EUTDefaultSuites {
+				cfg.CipherSuites = nil
+			}
 			if sr.ClientAuth {
 				cfg.Certificates = []gmtls.Certificate{pki.GM("cli")}
 			}
@@ -940,6 +959,26 @@ func runScriptedPeer(c *simkit.Choice, r *simkit.Rec) {
 			}
 			if sr.SrvSKXOverList && len(sr.SrvCertList) > 1 {
 				cfg.SKXOverCert = sr.SrvCertList[1]
+			}
+			if sr.EUTDefaultSuites {
+				cfg.SKXBody = func(cr, srnd []byte) []byte {
+					// ServerECDHParams || signature over SHA-1(client_random || server_random || params)
+					// made with the SM2 signing key (the form gmtls' client verifies for this suite family)
+					k, _ := reftls.ECDHEKey(reftls.CurveP256, entP) // any 32-byte scalar source
+					pt := reftls.SM2BasePointMult(k.Bytes())
+					switch sr.GMECDHEBadPoint {
+					case 1:
+						pt = pt[:len(pt)-1]
+					case 2:
+						pt = append([]byte{4}, make([]byte, 64)...)
+					case 3:
+						pt = []byte{}
+					}
+					params := reftls.ECDHEParamBytes(sr.GMECDHECurve, pt)
+					h := sha1.Sum(append(append(append([]byte(nil), cr...), srnd...), params...))
+					sig := reftls.SM2SignDefault(pki.D("srv-sign"), h[:], entP)
+					return append(params, reftls.Vec16Body(sig)...)
+				}
 			}
 			peerRes, peerErr = reftls.ServerHandshake(pc, cfg)
 		}
